@@ -158,13 +158,31 @@ pub fn run_case(case: &Case) -> Run {
               _ => o.complete(),
             }
           }
-          "unsub" | "query" if handles.len() < st.a as usize => {
+          "unsub" | "query" | "using" | "using_panic" if handles.len() < st.a as usize => {
             *trunc2.lock().unwrap() = true;
             break;
           }
           "unsub" => {
             let h = &handles[st.a as usize - 1];
             h.unsubscribe();
+            log(&w, "mark", st.a, "unsubret", 0, 0);
+            log(&w, "ans", st.a, "issub", h.is_subscribed() as i64, 0);
+          }
+          // utils::Using: the guard is dropped at scope exit / by unwinding out of a (caught) panic
+          "using" | "using_panic" => {
+            let h = handles[st.a as usize - 1].clone();
+            if st.k == "using" {
+              let _guard = utils::Using::new(h.clone());
+            } else {
+              let h2 = h.clone();
+              let prev = std::panic::take_hook();
+              std::panic::set_hook(Box::new(|_| {}));
+              let _ = std::panic::catch_unwind(std::panic::AssertUnwindSafe(move || {
+                let _guard = utils::Using::new(h2);
+                std::panic::panic_any(0u8);
+              }));
+              std::panic::set_hook(prev);
+            }
             log(&w, "mark", st.a, "unsubret", 0, 0);
             log(&w, "ans", st.a, "issub", h.is_subscribed() as i64, 0);
           }
